@@ -34,15 +34,14 @@ Theorem C15_erase_commutes_translate : forall p dx dy,
 Proof. exact translate_path_erase. Qed.
 Print Assumptions C15_erase_commutes_translate.
 
-(* the generic statement behind them: ANY map between point types compatible with operator== and IsCollinear
-   commutes with TrimCollinear (so the result cannot depend on anything == and IsCollinear do not see) *)
+(* the generic statement behind them: ANY map between point types compatible with IsCollinear commutes with
+   TrimCollinear (so the result cannot depend on anything IsCollinear does not see) *)
 Theorem C15_trim_collinear_parametric :
-  forall (P Q : Type) (f : P -> Q) (eqb1 : P -> P -> bool) (eqb2 : Q -> Q -> bool)
+  forall (P Q : Type) (f : P -> Q)
          (coll1 : P -> P -> P -> bool) (coll2 : Q -> Q -> Q -> bool),
-  (forall a b, eqb2 (f a) (f b) = eqb1 a b) ->
   (forall a b c, coll2 (f a) (f b) (f c) = coll1 a b c) ->
   forall p is_open,
-  g_trim_collinear eqb2 coll2 (map f p) is_open = rmap (map f) (g_trim_collinear eqb1 coll1 p is_open).
+  g_trim_collinear coll2 (map f p) is_open = rmap (map f) (g_trim_collinear coll1 p is_open).
 Proof. exact @trim_collinear_map. Qed.
 Print Assumptions C15_trim_collinear_parametric.
 
